@@ -1,4 +1,4 @@
-\* exhaustive (thorough tier), assembly automaton: streams of exactly <= 3 frames over a reduced size alphabet
+\* exhaustive (thorough tier), assembly automaton: streams of <= 3 frames over a reduced size alphabet
 CONSTANTS
   Codecs <- AllCodecs
   Mtus = {12}
